@@ -90,6 +90,10 @@ def run_check(chk, repo, tier):
     chk.clause('C01-j', 'memoised coordinate vectors are never written and never escape', 1)
     chk.clause('C01-s', 'no operation in fourier.py mixes the two axes of one array (shape inference)', 1)
     chk.not_decided += ['element-wise equality with the defining sum to rounding', 'Parseval numerically']
+    # the transforms read their input and write `out` only: an input conjugated in place "for the duration of the call" is
+    # the output when the caller passes out=F (the documented in-place pattern), and then the restore undoes the result
+    from .common import operands_untouched
+    operands_untouched(chk, repo, 'C01-i', ['fourier.dft2', 'fourier.idft2'], allow=[('fourier.dft2', 'out'), ('fourier.idft2', 'out')])
 
     fdft = repo.func('fourier.dft2')
     alpha, shift, offset = pair('alpha'), pair('shift'), pair('offset')
@@ -155,6 +159,21 @@ def run_check(chk, repo, tier):
                           N_, n_)]
                 for axis, el, al, out_c, in_c, so, si, n_out, n_in in specs:
                     ea = el.single_atom()
+                    if ea is not None and is_app(ea, 'pow') and len(ea[2]) == 2 and isinstance(ea[2][0], Poly) \
+                            and ea[2][0].single_atom() is not None and is_app(ea[2][0].single_atom(), 'exp') \
+                            and any(a_ == nf.I.single_atom() for a_ in nf.value_atoms(ea[2][0].single_atom()[2][0])):
+                        # W**(x*u) with W = exp(-2 pi i alpha): a complex base raised to a real power goes through the
+                        # principal logarithm, i.e. alpha is taken modulo 1 into (-1/2, 1/2] - equal to exp(-2 pi i alpha x u)
+                        # only where x*u is an integer, which a fractional shift (or offset) rules out
+                        expo = ea[2][1]
+                        fractional = [a_ for a_ in nf.value_atoms(expo) if a_ in nf.value_atoms(shift) or a_ in nf.value_atoms(offset)
+                                      or a_ in nf.value_atoms(alpha)]
+                        chk.ob('C01-e', 'N-const', 'fourier._dft2_matrices', f'{axis} kernel is the exponential of the phase [{label}]',
+                               False if fractional else None,
+                               f'kernel element {fmt(el)[:120]}: a power of the complex twiddle factor takes the principal branch of its '
+                               'logarithm; for |alpha| > 1/2 and a fractional shift the element differs from exp(-2 pi i alpha x u)',
+                               f.loc(p.node))
+                        continue
                     if ea is None or not is_app(ea, 'exp'):
                         raise AnalysisError(f'fourier.dft2: {axis} kernel element is not exp(...): {fmt(el)[:200]}')
                     phase = ea[2][0]
